@@ -1,7 +1,7 @@
 from common import COMMON_TB
 
 CONFIG = {
-    "lean_modules": ["SA.Props.C10"],
+    "lean_modules": ["SA.Props.C10", "SA.Props.C10Par"],
     "level_text": "Proof over all record types and payload lengths, with two stated exclusions. Proved in Lean: "
                   "C10_sort_inverts_tagging (generic key lemma: records tagged o, o+1, ... whose decoded key is strictly increasing, in "
                   "any arrival order, under any sort that returns an ordered permutation - all sort.Slice promises - unwrap to the pieces "
@@ -16,7 +16,10 @@ CONFIG = {
                   "Earlier: C10_partial (one record), C10_error_reported_wrap/_wire, C10_private_registered / C10_unwrap_undoes_escaping "
                   "(facts regenerated from the source), kernel-checked witnesses (A/AAAA residue, SRV label, Raw over CNAME => not C10_full). "
                   "The model is tied to the Go code by running both through the real serializer, wrap.go and miekg Pack/Unpack and "
-                  "comparing outcome class, record count, unwrapped length and every decoded field.",
+                  "comparing outcome class, record count, unwrapped length and every decoded field. Concurrency (SA.Props.C10Par): "
+                  "C10_batch_pointwise / C10_concurrent_no_silent_corruption / C10_par_op_pointwise - a batch of responses handled at "
+                  "the same moment is pointwise the single outcomes; tied by the `par` op (G goroutines through the real shared codec "
+                  "singletons, wrap.go and serializers; every result compared with the same response processed alone).",
     "level_note": "Excluded from the theorems: (1) Raw / any payload containing '.' or '\\' over CNAME/MX/SRV - open finding "
                   "C10-raw-over-names; (2) record counts beyond the tag range - open finding C10-order-tag-wrap (confirmed on the real code: "
                   "AAAA 65537 records and TXT 513 records decode a different response silently; unreachable through the server, whose "
@@ -40,6 +43,9 @@ CONFIG = {
             "(backslash, quote, NUL, 0x1f, 0x7f, 0xff, dot, semicolon) and escape look-alikes (\\123, \\\\, \\\", \\.) at "
             "every stream offset boundary-4..+4 (thorough -8..+8); Raw places them directly, Base85/91/128 are searched "
             "through the real encoder until the encoded stream has a backslash/quote/high/low/dot byte at that offset. "
+            "(6) concurrent batches `par G iters ops`: per codec 8 users' packet responses over one record type (equal and "
+            "different lengths, a duplicate, another response kind) and 8 mixed batches of 12 (codecs x record types x kinds), "
+            "G=24 x 30 iterations (thorough 4 rounds, G=48 x 100). "
             "non-trivial = client decoded the same response; distinct = distinct op line. Monitor: decoded == sent or an "
             "error was reported; silent difference and panic fail",
     "trusted_base": COMMON_TB + ["models SA.Model.DnsWire / DnsResp hand-written; tied by per-op comparison of outcome class, "
